@@ -15,7 +15,7 @@ static void *verif_realloc(void *old, size_t n) {
   void *p = malloc(n);
   __CPROVER_assume(p != 0);
   g_newobj = __CPROVER_POINTER_OBJECT(p);
-  g_allocs++;
+  g_allocs++; g_reallocs++;
   size_t nc = n / sizeof(struct Elem);
   size_t oc = 0;
   if (old != 0) {
